@@ -161,7 +161,7 @@ structure Cfg where
   maxPendR : Nat
   maxAccL : Nat         -- LocalChanCfg.MaxAcceptedHtlcs
   maxAccR : Nat
-deriving Repr, Inhabited
+deriving DecidableEq, Repr, Inhabited
 
 structure Node where
   cfg : Cfg
@@ -705,5 +705,58 @@ def System.step (s : System) : SysStep → Err × System
     match s.ba with
     | [] => (.ok, s)
     | m :: rest => let r := s.a.deliver m; (r.1, { s with a := r.2, ba := rest })
+
+/-! ## what two peers must agree on (hypothesis of `honest_sig_verifies_partial`) -/
+
+/-- what the construction of a commitment on chain `c` can see of a log entry. -/
+structure AEntry where
+  ty : ETy
+  amt : Nat
+  htlcIndex : Nat
+  parent : Nat
+  expiry : Nat
+  hash : Nat
+  added : Bool     -- already on the chain as an add / fee update
+  removed : Bool   -- already on the chain as a removal
+deriving DecidableEq, Repr
+
+/-- update_fail_htlc and update_fail_malformed_htlc are the same thing for the commitment
+    (the receiver records both as `Fail`). -/
+def normTy : ETy → ETy
+  | .malformed => .fail
+  | t => t
+
+def absE (c : Chain) (e : Entry) : AEntry :=
+  ⟨normTy e.ty, e.amt, e.htlcIndex, e.parent, e.expiry, e.hash, e.addH c != 0, e.rmvH c != 0⟩
+
+/-- the peer's static configuration. -/
+def Cfg.mirror (c : Cfg) : Cfg :=
+  { c with initiator := !c.initiator, dustL := c.dustR, dustR := c.dustL, resL := c.resR, resR := c.resL,
+           minL := c.minR, minR := c.minL, maxPendL := c.maxPendR, maxPendR := c.maxPendL,
+           maxAccL := c.maxAccR, maxAccR := c.maxAccL }
+
+/-- resolutions of a view that are not yet on chain `c`. -/
+def newRes (c : Chain) (v : List Entry) : List Entry := (resolutions v).filter (fun r => r.rmvH c == 0)
+
+/-- executable form of `LogAgreement a b` (signer `a` when signing, receiver `b` when the
+    signature is delivered); evaluated by the driver on the implementation's own states.
+    Only what the construction consumes is compared (live adds, not-yet-committed resolutions,
+    resulting fee rate), so the check is insensitive to the moment at which each side compacts
+    fully resolved entries out of its logs. -/
+def agreeCheck (a b : Node) : Bool :=
+  let vLa := viewOf a.logL a.logL.logIndex
+  let vRa := viewOf a.logR a.chainL.tail.theirMsg
+  let vLb := viewOf b.logL b.chainR.tail.ourMsg
+  let vRb := viewOf b.logR b.logR.logIndex
+  decide (b.cfg = a.cfg.mirror) &&
+  decide (b.chainL.tip.height = a.chainR.tip.height) && decide (b.chainL.tip.our = a.chainR.tip.their) &&
+  decide (b.chainL.tip.their = a.chainR.tip.our) && decide (b.chainL.tip.fee = a.chainR.tip.fee) &&
+  decide (b.chainL.tip.feePerKw = a.chainR.tip.feePerKw) &&
+  decide ((liveAdds vLa (resolutions vRa)).map (absE .rem) = (liveAdds vRb (resolutions vLb)).map (absE .loc)) &&
+  decide ((liveAdds vRa (resolutions vLa)).map (absE .rem) = (liveAdds vLb (resolutions vRb)).map (absE .loc)) &&
+  decide ((newRes .rem vLa).map (absE .rem) = (newRes .loc vRb).map (absE .loc)) &&
+  decide ((newRes .rem vRa).map (absE .rem) = (newRes .loc vLb).map (absE .loc)) &&
+  decide (viewFeePerKw (if a.cfg.initiator then vLa else vRa) a.chainR.tip.feePerKw =
+          viewFeePerKw (if a.cfg.initiator then vRb else vLb) b.chainL.tip.feePerKw)
 
 end LndModel.C01
